@@ -491,10 +491,12 @@ func cmdConc(args []string) error {
 	g := &storeGen{r: r, ops: wo, impl: wi, hist: map[string]int{}}
 	uni := concUniverse()
 	overl := 0
-	for i := 0; i < *n; i++ {
+	deadlocks := 0
+	for i := 0; i < *n && deadlocks < 3; i++ { // (each history that does not finish costs its watchdog's ten seconds)
 		h := oneHistory(r, uni)
 		if len(h) == 1 && h[0].kind == "deadlock" {
 			g.emit("H deadlock", "deadlock")
+			deadlocks++
 			continue
 		}
 		// does any pair of operations of different threads overlap in time?
